@@ -16,9 +16,11 @@ pub mod eval;
 pub mod gen;
 pub mod prog;
 pub mod enc;
+pub mod cffi;
 
 pub mod c01;
 pub mod c02;
+pub mod c03;
 pub mod c04;
 pub mod c05;
 pub mod c07;
